@@ -194,6 +194,13 @@ def generate(repo):
                     if nm not in tr.env:
                         raise Untranslatable(f'{nm} clamped before it is assigned')
                     lets.append(f'let {nm}_ := if {tr.cond(st.test)} then {tr.expr(st.body[0].value)} else {nm}_')
+                elif isinstance(st, ast.Assign) and len(st.targets) == 1 and isinstance(st.targets[0], ast.Name):
+                    # a local alias (`ncols = x.shape[1]`): inlined where it is used; the clamp itself is emitted AS WRITTEN
+                    # (`min(max(v, 0), n)` or the two ifs) and proved equal to the model clamp for all integers in gen_window
+                    try:
+                        tr.env[st.targets[0].id] = tr.expr(st.value)
+                    except Untranslatable:
+                        pass
             for nm, res in ((f'windowLo{ax}', f'offset_{ax.lower()}_'), (f'windowHi{ax}', f'upper_{ax.lower()}_')):
                 out.append(lean_def(nm, '(c ic s n : Int)', 'Int', lets, res))
         # every other statement of the body must be the int -> tuple promotion of samples_per_seg
@@ -309,9 +316,23 @@ def generate(repo):
         ok = True
         for cls in ('CompositeHexagonalAperture', 'CompositeKeystoneAperture'):
             fn = get_def(sg, f'{cls}.compose_opd')
-            loop = [s for s in fn.body if isinstance(s, ast.For)][0]
+            loops = [s for s in fn.body if isinstance(s, ast.For)]
+            returns_out = has(ast.unparse(fn), 'return out')
+            if not loops:
+                # the accumulation loop extracted into a module-level helper `return helper(out, windows, masks, bases, coefs)`:
+                # bind the helper's parameters to the call's arguments and read the loop there
+                ret = [s for s in fn.body if isinstance(s, ast.Return) and isinstance(s.value, ast.Call) and isinstance(s.value.func, ast.Name)][-1]
+                helper = get_def(sg, ret.value.func.id)
+                params = [a.arg for a in helper.args.args]
+                mapping = dict(zip(params, ret.value.args))
+                mapping.update({k.arg: k.value for k in ret.value.keywords})
+                hb = [subst(s, mapping) for s in _body(helper)]
+                loops = [s for s in hb if isinstance(s, ast.For)]
+                returns_out = isinstance(hb[-1], ast.Return) and ast.unparse(hb[-1].value) == 'out' and ast.unparse(mapping['out']) == 'out' \
+                    and all(isinstance(s, (ast.For, ast.Return)) for s in hb)
+            loop = loops[0]
             ok = ok and [ast.unparse(s) for s in loop.body] == ['tile = sum_of_2d_modes(base, c)', 'tile *= mask', 'out[win] += tile']
-            ok = ok and has(ast.unparse(fn), 'if out is None:\n    out = np.zeros_like(self.x)', 'return out')
+            ok = ok and has(ast.unparse(fn), 'if out is None:\n    out = np.zeros_like(self.x)') and returns_out
             it = ast.unparse(loop.iter)
             ok = ok and (has(it, 'zip(self.windows, self.local_masks, self.opd_bases, coefs)')
                          or has(it, 'zip(self.segment_windows, self.segment_masks, self.opd_bases[1:], segment_coefs)'))
@@ -487,10 +508,47 @@ def generate(repo):
                  f'def keyLoUpStep {KV} (pi lo : K) : K := {up[1]}\n'
                  f'def keyHi {KV} (angle lo arc : K) : K := {hi_expr}\n'
                  f'def keyHiUntouched : Bool := {"false" if hi_touched else "true"}')
+        # the start angle of keystone k of a ring and the arc, from the statements of the ring loop in front of the segment loop:
+        # arc_per_seg = 360 / nsegments; arc_rad = np.radians(arc_per_seg); [rotation = arc_per_seg if None];
+        # segment_angles = np.arange(nsegments) * arc_per_seg + rotation; segment_angles = np.radians(segment_angles) - np.pi
+        rad_f = {nm: (lambda a, kw: (f'(rad {a[0][0]})', 's')) for nm in ('np.radians', 'np.deg2rad', 'truenp.radians', 'math.radians')}
+        tra = VTr({'nsegments': ('nseg', 's'), 'rotation': ('rot', 's'), 'np.pi': ('pi', 's'), 'math.pi': ('pi', 's')}, funcs=rad_f)
+        tra.env['deg360__'] = ('(360 : K)', 's')
+
+        class _C360(ast.NodeTransformer):
+            def visit_Constant(self, node):
+                return ast.copy_location(ast.Name(id='deg360__', ctx=ast.Load()), node) if node.value == 360 and not isinstance(node.value, bool) else node
+        default_rot = None
+        k_inner = [i for i, s_ in enumerate(loop.body) if s_ is inner_loop][0]
+        if ast.unparse(inner_loop.iter) != 'segment_angles' or ast.unparse(inner_loop.target) != 'angle':
+            raise Untranslatable('keystone: segment loop does not run over segment_angles')
+        for st in [ast.fix_missing_locations(_C360().visit(subst(s_, consts))) for s_ in loop.body[:k_inner]]:
+            txt = ast.unparse(st)
+            if isinstance(st, ast.If) and _n(ast.unparse(st.test)) == _n('rotation is None') and len(st.body) == 1 and not st.orelse \
+                    and isinstance(st.body[0], ast.Assign) and ast.unparse(st.body[0].targets[0]) == 'rotation':
+                default_rot = VTr(dict(tra.env), funcs=rad_f).expr(st.body[0].value)[0]
+            elif isinstance(st, ast.Assign) and len(st.targets) == 1 and isinstance(st.targets[0], ast.Name):
+                nm = st.targets[0].id
+                if nm in ('inner_radius', 'outer_radius'):
+                    continue
+                val = st.value
+                # np.arange(nsegments, dtype=float) is the index k of the keystone, per element
+                val = ast.parse(ast.unparse(val).replace('np.arange(nsegments, dtype=float)', 'k__').replace('np.arange(nsegments)', 'k__'), mode='eval').body
+                tra.env['k__'] = ('k', 's')
+                tra.env[nm] = tra.expr(val)
+            else:
+                raise Untranslatable(f'keystone ring loop: {txt[:60]}')
+        if default_rot is None or 'segment_angles' not in tra.env or 'arc_rad' not in tra.env:
+            raise Untranslatable('keystone: start angles / arc / default rotation not found')
+        KV2 = '{K : Type} [Add K] [Sub K] [Mul K] [Div K] [Neg K] [OfNat K 0] [OfNat K 1] [OfNat K 2]'
+        lit360 = lambda t: t      # noqa: E731
+        angles = (f'def keyAngle {KV2} [OfNat K 360] (rad : K → K) (pi k nseg rot : K) : K := {tra.env["segment_angles"][0]}\n'
+                  f'def keyArc {KV2} [OfNat K 360] (rad : K → K) (nseg : K) : K := {tra.env["arc_rad"][0]}\n'
+                  f'def keyDefaultRot {KV2} [OfNat K 360] (nseg : K) : K := {default_rot}')
         return (f'def keyInner {{K : Type}} [Add K] (outerPrev gap : K) : K := {inner}\n'
                 f'def keyOuter {{K : Type}} [Add K] (inner width : K) : K := {outer}\n'
                 f'def keySector {PVARS} (rin rout lo hi r t : K) : Prop := ({xor} ∧ {angp})\n'
-                f'def keyAng {PVARS} (pi lo hi t : K) : Prop := {wrap}\n' + start)
+                f'def keyAng {PVARS} (pi lo hi t : K) : Prop := {wrap}\n' + start + '\n' + angles)
     g.item('keystone', 'prysm/segmented.py:_composite_keystone_aperture',
            lambda: get_def(sg, '_composite_keystone_aperture'), keystone,
            (f'def keyInner {{K : Type}} [Add K] (outerPrev gap : K) : K := {M}.keyInner outerPrev gap\n'
@@ -502,7 +560,10 @@ def generate(repo):
             f'def keyLoUpCond {PVARS} (pi lo : K) : Prop := lo < -pi\n'
             'def keyLoUpStep {K : Type} [Add K] [Sub K] [Mul K] [Div K] [Neg K] [OfNat K 0] [OfNat K 1] [OfNat K 2] (pi lo : K) : K := lo + 2 * pi\n'
             'def keyHi {K : Type} [Add K] [Sub K] [Mul K] [Div K] [Neg K] [OfNat K 0] [OfNat K 1] [OfNat K 2] (angle lo arc : K) : K := lo + arc\n'
-            'def keyHiUntouched : Bool := true'))
+            'def keyHiUntouched : Bool := true\n'
+            'def keyAngle {K : Type} [Add K] [Sub K] [Mul K] [Div K] [Neg K] [OfNat K 0] [OfNat K 1] [OfNat K 2] [OfNat K 360] (rad : K → K) (pi k nseg rot : K) : K := Model.C18.keyAngle rad pi k nseg rot\n'
+            'def keyArc {K : Type} [Add K] [Sub K] [Mul K] [Div K] [Neg K] [OfNat K 0] [OfNat K 1] [OfNat K 2] [OfNat K 360] (rad : K → K) (nseg : K) : K := Model.C18.keyArc rad nseg\n'
+            'def keyDefaultRot {K : Type} [Add K] [Sub K] [Mul K] [Div K] [Neg K] [OfNat K 0] [OfNat K 1] [OfNat K 2] [OfNat K 360] (nseg : K) : K := Model.C18.keyDefaultRot nseg'))
 
     def rect_branches():
         fn = get_def(ge, 'rectangle')
